@@ -29,7 +29,10 @@ CLAIM = {
         "and every behaviour of its call sites within the stdlib exception catalogue the closure returns or raises a LoadError; "
         "`translated_leaf_no_escape` lifts this to every concrete run by the abstraction-soundness theorem of the embedding; "
         "`load_no_escape`/`builtin_load_no_escape` prove by fuel induction that containers, unions, literals and (default-layout) "
-        "models add no other source, for all types Python can hold values of, all data, 3 debug_trail x 2 coercion modes. "
+        "models add no other source, for all types Python can hold values of, all data, 3 debug_trail x 2 coercion modes; "
+        "`load_terminates`/`builtin_load_settles` give the fuel-free form (every load, also over recursive class tables, ends in "
+        "a value or a LoadError for all sufficiently large fuels), `witness_within` shows the catalogue hypothesis satisfiable, "
+        "`set_of_any_escapes` states the known finding in the model. "
         "The hand-written container model is tied to the code by a hostile-heavy load correspondence; the translator by "
         "evaluating every translated closure in Lean against the real closure."
     ),
